@@ -138,6 +138,7 @@ def routes(job):
     def bad(clause, detail, cfg):
         part.violation("%s/coordsys=%s" % (clause, cfg["coordsys"]), "%r: %s" % (cfg, detail), cfg)
 
+    held = {"astronomical": [], "planetary": []}
     for (n, x, y), planetary in work:
         csn = "planetary" if planetary else "astronomical"
         cs = cs_of(planetary)
@@ -151,6 +152,19 @@ def routes(job):
             bad("route-single/raises:%s" % type(e).__name__, repr(e), cfg)
             continue
         vs = tvec(s)
+        # a tile already handed out must not change when the OTHER coordinate system is used afterwards
+        try:
+            toast.create_single_tile(Pos(n, x, y), coordsys=cs_of(not planetary))
+            toast.toast_tile_for_point(min(n, 3), 0.3, 1.0, coordsys=cs_of(not planetary))
+            for _t in toast.generate_tiles(1, coordsys=cs_of(not planetary)):
+                pass
+        except Exception:
+            pass
+        if tg.angdist(tvec(s), vs).max() > 0 or (held and any(tg.angdist(tvec(t), v0).max() > 0 for t, v0 in held[csn])):
+            bad("tile-mutated-by-later-call", "a tile returned earlier changed after the other coordinate system was used", cfg)
+            held[csn] = []
+        if n <= 2 and len(held[csn]) < 24:
+            held[csn].append((s, vs.copy()))
         if tuple(s.pos) != (n, x, y) or tg.angdist(vs, c).max() > 1e-9 or bool(s.increasing) != inc:
             bad("route-single/differs-from-reference", "create_single_tile corners off by %.3g rad, increasing=%r (reference %r)" % (tg.angdist(vs, c).max(), s.increasing, inc), cfg)
         f = full.get((n, x, y))
